@@ -14,7 +14,9 @@ Transcribes, from `mindsdb_sql/planner/plan_join.py` (pinned tree):
 * `process_subselect`, the join loop with `step_stack`, `add_plan_step` / partitions / `close_partition`,
 * the final `QueryStep`.
 
-Core Lean only.  Not modelled: LIMIT/ORDER pushdown (`check_use_limit`, C08), time-series models,
+* `check_use_limit`, `where_is_applied_before_join`, the LIMIT / OFFSET / ORDER BY take-over of `process_table`.
+
+Core Lean only.  Not modelled: time-series models, nested selects in the select list,
 the inner plans of sub-select operands and of nested selects in WHERE (opaque: only their number of steps,
 `Operand.inner` / `sel n`, enters the model), integration routing (C10).
 -/
@@ -54,6 +56,7 @@ structure Operand where
   target : Option String         -- models: `to_predict` (first element), as in the catalog
   inner : Nat := 1               -- sub-select operands: number of steps of the sub-select's own plan
   integ : String := ""           -- tables: the (lower-cased) integration the fetch is sent to
+  tkey : String := ""            -- tables: `str(item.table)` (name without integration + alias), for `table_info.table != item.table`
 deriving Repr, Inhabited
 
 /-- ASCII lower-casing (Python's `str.lower` on ASCII text), written so that `decide` can evaluate it -/
@@ -355,9 +358,31 @@ def Ref.show : Ref → String
   | .sub p k => s!"{p}_{k}"
   | .bad => "?"
 
+/-- the parts of the query that the LIMIT pushdown (`check_use_limit`, `process_table`) and the final
+QueryStep look at -/
+structure QInfo where
+  targets : List E := []             -- the select list (aliases dropped); `[]` with `isStar` for `SELECT *`
+  isStar : Bool := true              -- `len(targets) == 1 and isinstance(targets[0], Star)`
+  distinct : Bool := false
+  groupBy : Bool := false
+  having : Bool := false
+  limit : Option String := none
+  offset : Option String := none
+  orderBy : Option (List (E × String)) := none    -- (field, direction tag)
+deriving Repr, Inhabited
+
+/-- LIMIT / OFFSET / ORDER BY copied into a fetch -/
+structure FetchLim where
+  limit : Option String := none
+  offset : Option String := none
+  order : Option (List (String × String)) := none
+deriving Repr, Inhabited, DecidableEq
+
+def FetchLim.any (l : FetchLim) : Bool := l.limit.isSome || l.offset.isSome || l.order.isSome
+
 inductive Step where
   | nested (k : Nat)                                   -- plan of the k-th nested select of WHERE
-  | fetch (tab : Nat) (wh : Option E)
+  | fetch (tab : Nat) (wh : Option E) (lim : FetchLim := {})
   | inner (tab : Nat)                                  -- plan of a sub-select operand (one step assumed)
   | subsel (tab : Nat) (input : Ref) (wh : Option E)
   | distinct (input : Ref) (col : String)
@@ -365,7 +390,7 @@ inductive Step where
       (params : Option (List (String × String))) (cmap : Option (List (String × E)))
   | join (l r : Ref) (jtype : String) (on : Option E)
   | mr (values : Ref) (size : String) (subs : List Step)
-  | query (input : Ref) (wh : E)
+  | query (input : Ref) (wh : Option E) (limit : Option String := none) (offset : Option String := none)
 deriving Repr, Inhabited
 
 structure St where
@@ -373,6 +398,9 @@ structure St where
   part : Option Nat := none          -- index of the open MapReduceStep
   stack : List Ref := []             -- head = top
   fetched : List (Nat × Ref) := []   -- tables_fetch_step
+  q : QInfo := {}                    -- read-only: the query being planned
+  useLimit : Bool := false           -- `query_context['use_limit']`
+  offMoved : Bool := false           -- `query_in.offset = None` happened (OFFSET moved into a fetch)
 deriving Repr, Inhabited
 
 def addToPart (st : St) (p : Nat) (s : Step) : St × Ref :=
@@ -516,14 +544,44 @@ def cutDb (db : String) (locals : List String) : E → E
   | .acons h t => .acons (cutDb db locals h) (cutDb db locals t)
   | e => e
 
+/-- `where_is_applied_before_join`: every top-level conjunct of WHERE is evaluated in the fetch of table `j`
+or is stored for a model operand -/
+def whereApplied (ops : List Operand) (j : Nat) : Option E → Bool
+  | none => true
+  | some w => (topConjuncts w).all fun c =>
+    match attributed ops c with
+    | some (t, f) => (ops.getD t default).kind = .mod || (t == j && (whereFilters ops j (some w)).contains f)
+    | none => false
+
+/-- the ORDER BY a fetch of table `j` can take over: every field must be a qualified column of that table;
+`none` = `order_by = False` (LIMIT is then not pushed either), `some none` = the query has no ORDER BY -/
+def orderFor (ops : List Operand) (j : Nat) : Option (List (E × String)) → Option (Option (List (String × String)))
+  | none => some none
+  | some l =>
+    if l.all (fun (f, _) => match tableOfE ops f with
+        | some t => (ops.getD t default).tkey = (ops.getD j default).tkey
+        | none => false)
+    then some (some (l.map fun (f, d) => (colName f, d))) else none
+
+/-- LIMIT / OFFSET / ORDER BY of the fetch of table `j` in state `st` -/
+def fetchLim (ops : List Operand) (j : Nat) (w : Option E) (st : St) : FetchLim :=
+  if st.useLimit && whereApplied ops j w then
+    match orderFor ops j st.q.orderBy with
+    | some ob => { limit := st.q.limit, offset := st.q.offset, order := ob }
+    | none => {}
+  else {}
+
 def processTable (ops : List Operand) (j : Nat) (w : Option E) (st : St) : St :=
   let o := ops.getD j default
   let (st1, fs) := onFilters ops j o.on st
   let locals := match o.alias with
     | some a => [lower (a.getLast?.getD "")]
     | none => [lower (o.parts.getLast?.getD "")]      -- an unaliased table is referred to by its own name
-  let (st2, r) := addPlanStep st1 (.fetch j ((andAll (whereFilters ops j w ++ fs)).map (cutDb o.integ locals)))
-  { st2 with stack := r :: st2.stack, fetched := (j, r) :: st2.fetched }
+  let lim := fetchLim ops j w st1
+  let moved := st1.useLimit && whereApplied ops j w && (orderFor ops j st1.q.orderBy).isSome
+  let (st2, r) := addPlanStep st1 (.fetch j ((andAll (whereFilters ops j w ++ fs)).map (cutDb o.integ locals)) lim)
+  { st2 with stack := r :: st2.stack, fetched := (j, r) :: st2.fetched, useLimit := false,
+             offMoved := st2.offMoved || moved }
 
 inductive Err where
   | planning | notImplemented
@@ -537,7 +595,8 @@ def addInner (st : St) (j : Nat) : Nat → St
 
 def processSubselect (ops : List Operand) (j : Nat) (w : Option E) (st : St) : Except Err St :=
   let o := ops.getD j default
-  let st1 := addInner st j o.inner
+  -- LIMIT can be applied only to the leftmost operand: not to a table after this sub-select
+  let st1 := addInner { st with useLimit := false } j o.inner
   match o.alias with
   | none => .error .planning
   | some _ =>
@@ -622,6 +681,8 @@ structure Query where
   ops : List Operand
   wh : Option E
   using? : Option (List (String × String))
+  info : QInfo := {}
+  others : List E := []      -- every other expression `_check_identifiers` visits (select list, GROUP BY, HAVING, ORDER BY)
 deriving Repr, Inhabited
 
 def rewriteOn (ops : List Operand) : List Operand → Option (List Operand)
@@ -636,20 +697,55 @@ def whereFails (ops : List Operand) : Option E → Bool
   | none => false
   | some w => (topConjuncts w).any (attribFails ops)
 
+def aggNames : List String := ["count", "sum", "min", "max", "avg", "std"]
+
+def isAggNode : E → Bool
+  | .fn nm _ => aggNames.contains (lower nm)
+  | _ => false
+
+/-- `check_use_limit`: an aggregate function ANYWHERE in the select list (the targets are walked) -/
+def hasAgg (targets : List E) : Bool := targets.any fun t => (nodes t).any isAggNode
+
+/-- a plain row query: no HAVING, no GROUP BY, no DISTINCT, no aggregate in the select list -/
+def plainRow (q : QInfo) : Bool := !q.having && !q.groupBy && !q.distinct && !hasAgg q.targets
+
+/-- the join-kind loop of `check_use_limit`: a plain table met after a Join item that is not spelled
+`LEFT JOIN` switches the pushdown off -/
+def useLimitLoop (ops : List Operand) : List Item → Option Nat → Bool → Bool
+  | [], _, u => u
+  | .operand i :: rest, j, u =>
+    let u' := if (ops.getD i default).kind = .tab then
+        (match j with
+         | some k => if lower (ops.getD k default).jtype = "left join" then u else false
+         | none => u)
+      else u
+    useLimitLoop ops rest j u'
+  | .join k :: rest, _, u => useLimitLoop ops rest (some k) u
+
+def checkUseLimit (ops : List Operand) (q : QInfo) : Bool :=
+  if plainRow q then useLimitLoop ops (joinSeq ops) none true else false
+
+/-- `PlanJoinTablesQuery.plan`: the QueryStep on top of the join, unless the query is a bare `SELECT *`
+(an OFFSET that was moved into a fetch is gone from the query) -/
+def finalSteps (ops : List Operand) (w : Option E) (info : QInfo) (moved : Bool) (top : Ref) : List Step :=
+  let off := if moved then none else info.offset
+  if info.groupBy || info.orderBy.isSome || info.having || info.distinct || w.isSome || info.limit.isSome
+      || off.isSome || !info.isStar then
+    [.query top (w.map (outerWhere ops)) info.limit off]
+  else []
+
 /-- the planning proper, after `_check_identifiers`: `k` nested selects of WHERE were planned first -/
-def planWith (ops : List Operand) (w : Option E) (using? : Option (List (String × String))) (k : Nat) :
-    Except Err (List Step) :=
+def planWith (ops : List Operand) (w : Option E) (using? : Option (List (String × String))) (k : Nat)
+    (info : QInfo := {}) : Except Err (List Step) :=
   -- check_query_conditions
   if whereFails ops w then .error .planning else
-  match runItems ops w using? (joinSeq ops) { steps := (List.range k).map .nested } with
+  match runItems ops w using? (joinSeq ops)
+      { steps := (List.range k).map .nested, q := info, useLimit := checkUseLimit ops info } with
   | .error e => .error e
   | .ok st =>
     match (closePartition st).stack with
     | [] => .error .planning
-    | top :: _ =>
-      match w with
-      | some w => .ok ((closePartition st).steps ++ [.query top (outerWhere ops w)])
-      | none => .ok (closePartition st).steps
+    | top :: _ => .ok ((closePartition st).steps ++ finalSteps ops w info st.offMoved top)
 
 /-- nested selects in WHERE first -/
 def numberWhere : Option E → Option E × Nat
@@ -661,7 +757,9 @@ def plan (q : Query) : Except Err (List Step) :=
   -- _check_identifiers
   match rewriteOn q.ops q.ops,
       (match (numberWhere q.wh).1 with | none => some none | some w => (rewrite q.ops w).map some) with
-  | some ops, some w => planWith ops w q.using? (numberWhere q.wh).2
+  | some ops, some w =>
+    if q.others.all (fun e => (rewrite q.ops e).isSome) then planWith ops w q.using? (numberWhere q.wh).2 q.info
+    else .error .planning
   | _, _ => .error .planning
 
 /-! ## specification vocabulary (used by the theorems of `Props/C14.lean`) -/
@@ -743,7 +841,7 @@ def stepAt (steps : List Step) : Ref → Option Step
 from exactly the operands `S`, in join order.  A MapReduceStep denotes what its last sub-step denotes;
 `x` = index of a still OPEN MapReduceStep, whose own result may not be used yet. -/
 inductive HoldsX (steps : List Step) (x : Option Nat) : Ref → List Nat → Prop where
-  | fetch {r j w} : stepAt steps r = some (.fetch j w) → HoldsX steps x r [j]
+  | fetch {r j w l} : stepAt steps r = some (.fetch j w l) → HoldsX steps x r [j]
   | subsel {r j i w} : stepAt steps r = some (.subsel j i w) → HoldsX steps x r [j]
   | apply {r j i a b c} : stepAt steps r = some (.apply j i a b c) → HoldsX steps x r [j]
   | join {r l r' jt on A B} : stepAt steps r = some (.join l r' jt on) →
